@@ -35,6 +35,9 @@ pub enum Kind {
     TallKey(u64),
     /// a well-formed key of 8 levels W1/H2
     EightW1,
+    /// a well-formed key with the longest parameter list (8 entries, no end marker) whose seed has
+    /// this byte value at this position
+    EightSeedByte(u8, u8),
     /// a root tree of height 15 with an aux buffer that caches levels larger than 64 KiB
     TallAux(bool),
     /// a SigningKey object built from valid bytes whose pub bytes field is overwritten afterwards
@@ -383,6 +386,13 @@ pub fn check(c: &Case) -> Verdict {
                 }
             }
         }
+        Kind::EightSeedByte(pos, value) => {
+            let levels: Vec<Level> = vec![(8, 2); 8];
+            let mut s2 = seed.clone();
+            s2[0] = 0x21;
+            s2[*pos as usize % n] = *value;
+            exercise_blob(h, &hss::private_key_blob(&levels, 300, &s2), "a well-formed key of 8 levels whose seed holds a marker-like byte")
+        }
         Kind::EightW1 => {
             let levels: Vec<Level> = vec![(1, 2); 8];
             exercise_blob(h, &hss::private_key_blob(&levels, 77, &seed), "a well-formed key of 8 levels W1/H2")
@@ -473,6 +483,11 @@ pub fn run(ctx: &Ctx) {
         if h.n() == 32 {
             // a well-formed 8 x W1/H2 key (listed known finding siglen>65535): always exercised
             items.push(Case { hash: *h, kind: Kind::EightW1 });
+            for pos in [0u8, 1, 2, 7, 8, 15] {
+                for value in [0xffu8, 0x00, 0x53] {
+                    items.push(Case { hash: *h, kind: Kind::EightSeedByte(pos, value) });
+                }
+            }
         }
         if h.n() == 16 {
             items.push(Case { hash: *h, kind: Kind::TallAux(true) });
